@@ -102,6 +102,10 @@ def run(ctx):
                         continue
                     direct.append(s["sp"])
         ctx.ob("R15-share", "%s|no direct access to bits" % name, not direct, b.rec["sp"], "direct accesses: %s" % direct)
+    # --- the probe count carried on the wire is honoured by the probe function
+    reads = [s_["sp"] for blk in getp.blocks for s_ in blk["st"] for o in s_["rv"].get("o", ()) if (util.op_place(o) or {}).get("p") and ".num_probes" in util.op_place(o)["p"] and getp.origin(util.op_place(o)["l"], tuple(util.op_place(o)["p"]))[0] == 1]
+    ctx.ob("R15-share", "get_probes|number of probes taken from self.num_probes", bool(reads), getp.rec["sp"], "reads of self.num_probes: %d" % len(reads) if reads else
+           "get_probes never reads self.num_probes: a decoded filter's probe count is ignored, so members of a filter built with another count are reported absent")
     # --- access
     users_of_bits = []
     for p, r in fns.items():
